@@ -20,9 +20,9 @@ class Check(Prop):
     ID = "C27"
     RULE = ("cases = (self-contained generated class group, wrapping, decoy). Groups come from C16's hierarchy generator (superclass "
             "chains, included/extended modules, initialize, class methods, visibility, reopening; no collision names). Variants: A = the "
-            "group at top level; B = the same group wrapped in `module Mm` or `module Mm; module Nn` with the outside references "
+            "group at top level; B = the same group wrapped in one to three modules (Mm, Mm::Nn, Mm::Nn::Pp) with the outside references "
             "qualified; C = B plus a decoy class that has the short name of one of the group's classes but different methods and "
-            "initialize arity, placed at top level or in another module, before or after the group. Oracle: for every probe (instance "
+            "initialize arity, placed at top level, in another module or in an enclosing namespace of the group, before or after the group; half of the groups keep their last classes in a namespace of their own (module Inn) that names the rest of the group without qualification. Oracle: for every probe (instance "
             "call, class call, K.new arity) the records on the probe's row are the same in A, B and C once the qualifying prefix is "
             "stripped from messages; the multiset of all other diagnostics is equal; `--extends --class=K` prints the same parents modulo "
             "prefix for A and B. Non-trivial = the group uses inheritance or include/extend and has >= 1 probe with output; distinct by "
@@ -59,9 +59,10 @@ class Check(Prop):
                     if "m" in p:
                         p["m"] = p["m"].replace(old.lower(), new.lower())
                 h["coll"] = False
-            wrap = draw(st.sampled_from(["Mm", "Mm", "Mm::Nn"]))
+            wrap = draw(st.sampled_from(["Mm", "Mm::Nn", "Mm::Nn", "Mm::Nn::Pp"]))
+            h["inner"] = draw(st.integers(1, len(h["classes"]))) if draw(st.booleans()) else 0
             names = [d["name"] for d in h["classes"]]
-            decoy = {"name": names[draw(st.integers(0, len(names) - 1))], "frame": draw(st.sampled_from([None, None, "Zz"])),
+            decoy = {"name": names[draw(st.integers(0, len(names) - 1))], "frame": draw(st.sampled_from([None, None, "Zz", "Mm"])),
                      "before": draw(st.booleans()), "k": draw(st.integers(1, 9))}
             return {"h": h, "wrap": wrap, "decoy": decoy}
         return case()
@@ -74,7 +75,11 @@ class Check(Prop):
     def variants(case):
         a = dict(case["h"], wrap=None)
         b = dict(case["h"], wrap=case["wrap"])
-        dl = decoy_lines(case["decoy"]["name"], case["decoy"]["frame"], case["decoy"]["k"])
+        frame = case["decoy"]["frame"]
+        if frame == "Mm" and case["wrap"] == "Mm":
+            # a decoy in the group's own namespace would reopen the group's class; in an enclosing namespace it is a decoy
+            frame = None
+        dl = decoy_lines(case["decoy"]["name"], frame, case["decoy"]["k"])
         c = dict(b)
         c["decoy_before" if case["decoy"]["before"] else "decoy_after"] = dl
         return a, b, c
